@@ -198,6 +198,11 @@ def make_long(cfg, rnd, steps):
     """Turn a configuration into a stream of thousands of calls on ONE explainer (thresholds in call counters)."""
     cfg.update(steps=steps, d=min(cfg["d"], 2), n_inner=1, extras=0, vary_calls=False, manual_updates=False,
                storage=rnd.choice([("uniform", 5, False), ("geometric", 5, None, False), ("interval", 3, True)]))
+    if cfg["exact"] and cfg["loss"] not in ("hash", "zero", "zero-one"):
+        # exact squared / absolute losses of a NORMALISED marginal prediction have a fresh denominator at every call; the smoothed
+        # sums then grow by thousands of bits per call (a 2100-call stream ran for more than an hour: the quick tier of one commit hit
+        # its watchdog at VERIF_SEED=6).  Long exact streams use the hash loss, whose values have the fixed denominator 13.
+        cfg["loss"] = "hash"
     if cfg["exact"] and cfg["dyn"]:
         # exact smoothing multiplies denominators at every call: a dyadic alpha keeps the rationals at ~2 bits per call
         # (with k/1000 the numbers reach thousands of digits after 1400 calls - first long thorough run: a false alarm from the
